@@ -462,6 +462,9 @@ class FnAnalysis(Analysis):
             st.env[target.id] = v
             if st.lenge:
                 st.lenge = frozenset(p for p in st.lenge if target.id not in p)
+                if isinstance(value_node, ast.Name) and value_node.id != target.id:
+                    # y = off: what is known to remain behind off remains behind y
+                    st.lenge = st.lenge | {(p[0], target.id, p[2]) for p in st.lenge if len(p) == 3 and p[1] == value_node.id}
             if st.members:
                 st.members = frozenset(p for p in st.members if p[0] != target.id)
                 if isinstance(value_node, ast.Name):
@@ -1056,6 +1059,17 @@ class FnAnalysis(Analysis):
         lo = self.cint(sl.lower) if sl.lower is not None else 0
         hi = self.cint(sl.upper) if sl.upper is not None else None
         lb, exact = 0, None
+        if sl.step is None and st is not None and base_key is not None and isinstance(sl.lower, ast.Name) and isinstance(sl.upper, ast.BinOp) \
+                and isinstance(sl.upper.op, ast.Add):
+            # x[off:off + c] with len(x) - off >= k >= c established for a non-negative cursor off: exactly c elements
+            u = sl.upper
+            c_ = self.cint(u.right) if isinstance(u.left, ast.Name) and u.left.id == sl.lower.id else \
+                (self.cint(u.left) if isinstance(u.right, ast.Name) and u.right.id == sl.lower.id else None)
+            off_ = st.env.get(sl.lower.id)
+            rem = max((p[2] for p in st.lenge if len(p) == 3 and p[0] == base_key and p[1] == sl.lower.id), default=None)
+            if c_ is not None and c_ >= 0 and off_ is not None and off_.ilb is not None and off_.ilb >= 0 and rem is not None and rem >= c_:
+                kind0 = base.kind if base.kind in ("bytes", "str", "list", "strlist") else ("bytes" if base.taint else "any")
+                return Val(taint=base.taint, kind=kind0, lb=c_, exact=c_, elem=base.elem)
         if sl.step is None and lo == 0 and hi is None and isinstance(sl.upper, ast.Name) and st is not None:
             n = st.env.get(sl.upper.id)
             if n is not None and n.ilb is not None and n.ilb >= 0:
@@ -1737,7 +1751,8 @@ class FnAnalysis(Analysis):
             if mname == "_asdict" and not argv and recv.built and recv.fields and not any(k.startswith("#") for k, _v in recv.fields):
                 # NamedTuple._asdict(): the mapping of its field names to its fields
                 return Val(recv.taint, "map", kw=tuple(recv.fields))
-            if mname == "get" and recv.elem is not None and recv.elem.kind in ("bmeth", "cls"):
+            if mname == "get" and recv.elem is not None and (recv.elem.kind in ("bmeth", "cls") or (
+                    recv.kind == "map" and not recv.taint and recv.elem.fields and any(fv.kind in ("bmeth", "cls") for _fk, fv in recv.elem.fields))):
                 # a dispatch table of bound methods / classes: any of its values, or the default (None when absent)
                 dflt = argv[1] if len(argv) > 1 else kwv.get("default")
                 return join_val(recv.elem, dflt) if dflt is not None else recv.elem.but(may_none=True)
